@@ -14,5 +14,7 @@ CONSTANTS
     Ticks = FALSE
     Fatal = FALSE
     FlushOnFatal = TRUE
+    ZoneBack = FALSE
+    ZoneTies = FALSE
 INVARIANT W_NeverLeftover
 CHECK_DEADLOCK FALSE
